@@ -59,6 +59,10 @@ func (r *countReader) offset() int64 { return r.off }
 func (r *countReader) seek(rs io.ReadSeeker, off int64) error {
 	_, err := rs.Seek(off, 0)
 	if err != nil {
+		// Where rs is now is not known: a failed Seek may
+		// have moved it. No offset matches, so the next
+		// use seeks again.
+		r.off = -1
 		return err
 	}
 
